@@ -189,10 +189,11 @@ const (
 	xCallsDef
 	xSelect
 	xHostCall
+	xDeclares
 	nCancelKinds
 )
 
-var cancelKindName = [...]string{"busy-loop", "blocked-channel", "expired-context", "goroutines", "calls-definition", "blocked-select", "blocked-host-call"}
+var cancelKindName = [...]string{"busy-loop", "blocked-channel", "expired-context", "goroutines", "calls-definition", "blocked-select", "blocked-host-call", "declares-then-loops"}
 
 type c10Step struct {
 	Kind string // use-eval, use-ctx, use-host, cancel
@@ -471,6 +472,13 @@ func RunC10(t *testing.T, tape *Tape) *Outcome {
 					case xHostCall:
 						// a native call made by a top-level statement, which never returns
 						src = "host.Park()"
+					case xDeclares:
+						// the cancelled evaluation itself declares a variable, a function, a
+						// type with a method and shadows the focus definition's entry point
+						// in a block, before it loops: what it leaves in the symbol tables,
+						// scopes and frame slots must not disturb the earlier definitions
+						u := fmt.Sprintf("%d_%d", s.Def, si)
+						src = fmt.Sprintf("var nv%s = 7\nfunc nf%s(x int) int { return x + nv%s }\ntype nt%s struct{ a int }\nfunc (t nt%s) m() int { return t.a + 1 }\n{\n\tnv%s := 3\n\thost.Tick(nv%s)\n}\nfor { host.Tick(nf%s(nt%s{1}.m())) }", u, u, u, u, u, u, u, u, u)
 					case xSelect:
 						src = "s1 := make(chan int); s2 := make(chan int); select { case <-s1: case s2 <- 1: }"
 					}
